@@ -111,7 +111,7 @@ def draws(space, seed, n):
 # algorithm configurations (JSON-able nested lists)
 #   ['sweep'] | ['rand', seed] | ['dedup', inner, hashmod, auto, maxdup, maxatt]
 #   ['regevo', pop, tour, seed] | ['hill', batch, init, seed] | ['nsga2', pop, seed] | ['neat', pop, seed]
-#   ['gevo', init_cfg, init_size|None, upd, nchild]   upd: ['none'] | ['last', n] | ['top', n]
+#   ['gevo', init_cfg, init_size|None, upd, nchild]   upd: ['none'] | ['last', n] | ['top', n] | ['laststep', a, b]
 
 AUTO = {0: None, 1: 'sum', 2: 'max'}
 
@@ -176,6 +176,8 @@ def make(cfg, space):
       u = selectors.Last(upd[1])
     elif upd[0] == 'top':
       u = selectors.Top(upd[1])
+    elif upd[0] == 'laststep':
+      u = selectors.Last(lambda step, a=upd[1], b=upd[2]: a + step % b)
     return e.Evolution(gevo_children(space, nchild), population_init=(ig, size) if size is not None else ig, population_update=u)
   raise KeyError(k)
 
@@ -488,7 +490,7 @@ def gen_cfg(rng, kind):
   if kind == 'gevo':
     init = rng.choice([['sweep'], ['rand', seed]])
     size = rng.choice([None, 0, 1, 2, 3, 4]) if init[0] == 'sweep' else rng.choice([1, 2, 3, 4])
-    upd = rng.choice([['none'], ['last', rng.choice([1, 2, 3])], ['top', rng.choice([1, 2])]])
+    upd = rng.choice([['none'], ['last', rng.choice([1, 2, 3])], ['top', rng.choice([1, 2])], ['laststep', rng.choice([1, 2]), rng.choice([2, 3])]])
     return ['gevo', init, size, upd, rng.choice([1, 1, 2, 3])]
   if kind.startswith('dedup-'):
     inner = gen_cfg(rng, kind[6:])
@@ -558,7 +560,7 @@ def enc_alg(cfg, space, res, need):
     return [3, [1, draws(space, cfg[2], need)], [cfg[1]], [3], rp]
   if k == 'gevo':
     _, init, size, upd, nchild = cfg
-    u = dict(none=[0], last=[1] + upd[1:], top=[2] + upd[1:])[upd[0]]
+    u = dict(none=[0], last=[1] + upd[1:], top=[2] + upd[1:], laststep=[5] + upd[1:])[upd[0]]
     return [3, enc_alg(init, space, res, need), trlib.opt(size), u, rp]
   raise KeyError(k)
 
@@ -599,7 +601,7 @@ def plan(ctx):
     for w in (0, 1, 2, 3):
       for n in ctx.scale([9], [6, 14, 30]):
         cases.append(('lag%d' % w, gen_case(rng, kind, n=n, lag=w)))
-    for _ in range(ctx.scale(6, 60)):
+    for _ in range(ctx.scale(6, 120)):
       cases.append(('random', gen_case(rng, kind)))
   return cases
 
